@@ -136,20 +136,23 @@ Theorem C05_default_not_verbatim_refuted : exists p,
 Proof. exact default_not_verbatim_refuted. Qed.
 Print Assumptions C05_default_not_verbatim_refuted.
 
-(* default values: classified by HOW they are emitted. repr is acceptable; hand-quoting only for the uuid kind (validator alphabet has no quote / backslash)
-   and even there a newline gets through (finding); a hand-quoted date / date-time default is not acceptable *)
-Theorem C05_uuid_default_whitespace_refuted :
+(* default values are classified by HOW they are emitted: repr is acceptable, hand-quoting is not, for any kind (regression witness of the
+   repaired finding uuid_default_whitespace and of the date-time variant) *)
+Theorem C05_handquoted_default_refuted :
   slot_guard (mk CSQ SNone "Schema.default@prop-uuid" "models/*.py") (10 :: s2l "0000000-aaaa-4bbb-8ccc-dddddddddddd") = false /\
   lex_body SQ ((10 :: s2l "0000000-aaaa-4bbb-8ccc-dddddddddddd") ++ [SQ]) = None /\
-  site_safe (mk CSQ SNone "Schema.default@prop-uuid" "models/*.py") = true /\
+  slot_guard (mk CSQ SNone "Schema.default@prop-datetime" "models/*.py") (s2l "2020-01-01'10:00:00") = false /\
+  site_safe (mk CSQ SNone "Schema.default@prop-uuid" "models/*.py") = false /\
+  site_safe (mk CSQ SNone "Schema.default@query-uuid" "api/*/*.py") = false /\
   site_safe (mk CSQ SNone "Schema.default@prop-datetime" "models/*.py") = false /\
   site_safe (mk CSQ SNone "Schema.default@query-datetime" "api/*/*.py") = false /\
   site_safe (mk CSQ SNone "Schema.default@prop-date" "models/*.py") = false /\
+  site_safe (mk CSQ SRepr "Schema.default@prop-uuid" "models/*.py") = true /\
   site_safe (mk CSQ SRepr "Schema.default@prop-datetime" "models/*.py") = true /\
-  slot_guard (mk CSQ SRepr "Schema.default@prop-datetime" "models/*.py") (s2l "2020-01-01'10:00:00") = true /\
-  slot_guard (mk CSQ SNone "Schema.default@prop-datetime" "models/*.py") (s2l "2020-01-01'10:00:00") = false.
-Proof. exact uuid_default_whitespace_refuted. Qed.
-Print Assumptions C05_uuid_default_whitespace_refuted.
+  slot_guard (mk CSQ SRepr "Schema.default@prop-uuid" "models/*.py") (10 :: s2l "0000000-aaaa-4bbb-8ccc-dddddddddddd") = true /\
+  slot_guard (mk CSQ SRepr "Schema.default@prop-datetime" "models/*.py") (s2l "2020-01-01'10:00:00") = true.
+Proof. exact handquoted_default_refuted. Qed.
+Print Assumptions C05_handquoted_default_refuted.
 
 Theorem C05_raw_fallback_site_refuted :
   slot_guard (mk CIdent SSanitize "Schema.properties.key@collide" "models/*.py") (s2l "user-id") = false /\
